@@ -10,6 +10,8 @@ package c11
 import (
 	"encoding/json"
 	"fmt"
+	"os"
+	"strconv"
 	"strings"
 
 	"github.com/corazawaf/coraza/v3/collection"
@@ -255,28 +257,34 @@ type space struct {
 	atoms  []atom
 	from   int
 	to     int
-	maxLen func(size int) int
+	strLen func(size int) int // all symbol sequences up to this length (0 = none)
+	walk   func(size int) bool // plus the inputs derived from a walk of the AST
 }
 
 func spaces(thorough bool) []space {
 	if thorough {
 		return []space{
-			{"full", atoms, 1, 5, func(sz int) int {
-				if sz <= 4 {
-					return 4
-				}
-				return 3
-			}},
+			{"full", atoms, 1, 5,
+				func(sz int) int { return map[bool]int{true: 4, false: 2}[sz <= 4] },
+				func(sz int) bool { return sz >= 4 }},
+			{"reduced", reducedAtoms, 6, 6,
+				func(int) int { return 0 },
+				func(int) bool { return true }},
 		}
 	}
 	return []space{
-		{"full", atoms, 1, 4, func(sz int) int {
-			if sz <= 3 {
-				return 4
-			}
-			return 3
-		}},
+		{"full", atoms, 1, 4,
+			func(sz int) int { return map[bool]int{true: 4, false: 3}[sz <= 3] },
+			func(sz int) bool { return sz >= 4 }},
+		{"reduced", reducedAtoms, 5, 5,
+			func(int) int { return 0 },
+			func(int) bool { return true }},
 	}
+}
+
+func phase(name string) bool {
+	only := os.Getenv("VERIF_C11_ONLY") // profiling aid; unset in normal runs
+	return only == "" || strings.Contains(only, name)
 }
 
 func run(c *runner.Ctx) {
@@ -288,19 +296,43 @@ func run(c *runner.Ctx) {
 	idx := 0
 	// 1. generated patterns
 	for _, sp := range spaces(c.Thorough()) {
-		done := 0
+		if !phase(sp.name) {
+			continue
+		}
 		forEachPattern(sp.atoms, sp.from, sp.to, func(size int, e ex) {
 			idx++
 			if !c.Mine(idx) || c.Expired() {
 				return
 			}
-			done = size
-			rs.checkPattern(sp.name, e.s, rs.ic.get(e.syms, sp.maxLen(size)))
+			var in []string
+			if l := sp.strLen(size); l > 0 {
+				in = rs.ic.get(e.syms, l)
+			}
+			if sp.walk(size) {
+				w := derivedInputs(e.s, rs.multiline, false)
+				if in == nil {
+					in = w
+				} else {
+					in = append(w, in...) // in is shared: append to the fresh slice
+				}
+			}
+			c.Count("patterns_"+sp.name+"_size_"+strconv.Itoa(size), 1)
+			rs.checkPattern(sp.name, e.s, in)
 		})
-		_ = done
 	}
-	runCRS(rs, &idx)
-	runWAF(rs, &idx)
+	if phase("crs") {
+		runCRS(rs, &idx)
+	}
+	if phase("waf") {
+		runWAF(rs, &idx)
+	}
+	if c.Worker == 0 {
+		var desc []string
+		for _, sp := range spaces(c.Thorough()) {
+			desc = append(desc, fmt.Sprintf("%s atoms, sizes %d-%d", sp.name, sp.from, sp.to))
+		}
+		c.Extra("generated_spaces", desc)
+	}
 }
 
 // ---------------------------------------------------------------------------
